@@ -119,7 +119,15 @@ func VerifC12CrashDuringWrite() {
 		idx, linked := c13.links[p]
 		vrt.Assert(linked, "a write that had reported success is found at its path after the crash")
 		if linked {
-			vrt.Assert(!c13.inodes[idx].short, "a write that had reported success has no short write behind it")
+			// the object's own bytes are complete: a short write, if any, began
+			// after them (files are append-only; a later member of a combined file
+			// may be cut short without touching the earlier ones)
+			already := 0
+			if idx < len(before[p]) {
+				already = before[p][idx]
+			}
+			ino := c13.inodes[idx]
+			vrt.Assert(!ino.short || ino.shortAt >= already+d.sz, "a write that had reported success has no short write behind it")
 		}
 	}
 	for p, idx := range c13.links {
